@@ -181,7 +181,7 @@ func (ld *Loaded) findFunc(key string) *ssa.Function {
 func newExec(ld *Loaded) *Exec {
 	return &Exec{prog: ld.prog, fset: ld.fset, contracts: ld.cs, warnings: map[string]int{}, globals: map[*ssa.Global]*Obj{},
 		inlineMax: 14, maxStates: 60000, loopInfo: map[*ssa.Function]*LoopInfo{}, pureCache: map[*ssa.Function]*effectSummary{},
-		useContracts: true, noContractFor: map[string]bool{}}
+		useContracts: true, noContractFor: map[string]bool{}, assumed: map[string]int{}}
 }
 
 // ---------------------------------------------------------------- property specs
@@ -364,6 +364,9 @@ func runCheck(o *checkOpts) int {
 		for w, n := range rep.Warnings {
 			allWarnings[w] += n
 		}
+		for w, n := range ex.assumed {
+			allWarnings[w] += n
+		}
 		for _, u := range rep.Unsupported {
 			engineErrs = append(engineErrs, pf.Func+": "+u)
 		}
@@ -399,7 +402,7 @@ func runCheck(o *checkOpts) int {
 				continue
 			}
 			r := &ObResult{Name: c.Name, Kind: "cover", Claimed: true, Records: 1}
-			r.query = &Query{Name: c.Name, Assumes: append(append([]*Term{}, ex.axioms...), c.PC), Cover: true}
+			r.query = &Query{Name: c.Name, Assumes: append(append([]*Term{}, ex.axioms...), dropQuantified(c.PC)), Cover: true}
 			queries = append(queries, r)
 		}
 	}
@@ -574,6 +577,45 @@ func report(o *checkOpts, spec *PropSpec, ld *Loaded, results []*ObResult, engin
 		return 2
 	}
 	return exit
+}
+
+// dropQuantified removes quantified conjuncts (definitional facts about fresh symbols) so that a cover query
+// can be answered `sat` by the solvers; covers therefore check the quantifier-free part of the path condition.
+func dropQuantified(t *Term) *Term {
+	if t.Op != "and" {
+		if containsQuant(t) {
+			return True
+		}
+		return t
+	}
+	var keep []*Term
+	for _, a := range t.Args {
+		if !containsQuant(a) {
+			keep = append(keep, a)
+		}
+	}
+	return And(keep...)
+}
+
+func containsQuant(t *Term) bool {
+	seen := map[int]bool{}
+	var rec func(t *Term) bool
+	rec = func(t *Term) bool {
+		if seen[t.id] {
+			return false
+		}
+		seen[t.id] = true
+		if t.Op == "forall" || t.Op == "exists" {
+			return true
+		}
+		for _, a := range t.Args {
+			if rec(a) {
+				return true
+			}
+		}
+		return false
+	}
+	return rec(t)
 }
 
 func unclaimedList(results []*ObResult) []map[string]string {
